@@ -361,6 +361,26 @@ GATED = ["PermanentDelegate", "TransferHook", "MintCloseAuthority", "DefaultAcco
 NEVER = ["NonTransferable"]
 
 
+def R4b_every_extension_listed(run):
+    run.title("R4b", "get_token_extension_types lists the type of every TLV entry it walks over: between reading an entry's type and moving on, nothing but the three ways out "
+                     "of the walk (end of data, no room for a type, the Uninitialized terminator) and the malformed-entry errors decides whether the type is pushed "
+                     "(a zero-length entry - NonTransferable - is an entry like any other)")
+    facts = run.facts
+    fn = facts.need_fn("util::v2::token::get_token_extension_types")
+    run.touch(fn)
+    push = [bi for bi, t in fn.calls() if (callee_path(t) or "").endswith("::push") and not fn.blocks[bi]["c"]]
+    sel = []
+    for at in A.atoms(fn, cut="loop"):
+        if at.true_fail or at.false_fail:
+            continue
+        rt = cfg.reach(fn, at.true_targets[0], cut_blocks=[at.block])
+        rf = cfg.reach(fn, at.false_targets[0], cut_blocks=[at.block])
+        if any((b in rt) != (b in rf) for b in push):
+            sel.append(at)
+    run.check("R4b", "listed-unconditionally", len(push) == 1 and len(sel) <= 3, "get_token_extension_types pushes an entry's type under %d non-failing tests (%s); expected only the three walk exits" % (
+        len(sel), [sh(a.term, 50) for a in sel[3:]]), loc=fn.loc(), detail="%d selecting tests: end of data / no room for a type / Uninitialized" % len(sel))
+
+
 def R4_mint_admission(run):
     run.title("R4", "is_supported_token_mint: Token-program mints accepted; native-2022 rejected; freeze authority needs a badge; per extension "
                     "variant the badge-gated ones are rejected without badge, NonTransferable and the wildcard arm always")
@@ -734,4 +754,4 @@ def R6_cross_checks(run):
 
 
 RULES = [R1_bounded_stores, R1b_no_other_whirlpool_writers, R1c_pool_initialize, R2_tier_tick_spacing,
-         R3_validate_constants, R4_mint_admission, R5_badge_and_mustpass, R6_cross_checks]
+         R3_validate_constants, R4_mint_admission, R4b_every_extension_listed, R5_badge_and_mustpass, R6_cross_checks]
